@@ -1,5 +1,5 @@
 /- C06 part 2 – from `emitArgsAssignment` to `judge`: initial machine state, destinations, the initial context is well formed. -/
-import AsmjitVerif.Lemmas.C06ShuffleInit
+import AsmjitVerif.Lemmas.C06ShufflePhase3
 namespace AsmjitVerif.C06S
 open AsmjitVerif.CallConv AsmjitVerif.Shuffle AsmjitVerif.Machine
 
@@ -127,12 +127,11 @@ theorem wf_of_pinv (cfg : Cfg) (f : FrameIn) (vals : Vals) (hr : RegOnly vals) (
   have hphys : ∀ g r, g < 4 → physAt c2 g r = physAt c g r := by
     intro g r hg; unfold physAt; rw [w_map_range c2 F g hwd]; simp only [hg, if_true]; rw [hF g hg]
   have hvar : ∀ i, c2.var i = c.var i := by intro i; unfold Ctx.var; rw [hv]
-  refine ⟨by show c2.vars.length = vals.length; rw [hv]; exact hP.len, by show c2.wd.length = 4; rw [hwd]; simp, ?_, rfl, ?_, ?_,
-    by show c2.hasStackSrc = false; rw [hs]; exact hP.hss⟩
+  refine ⟨by show c2.vars.length = vals.length; rw [hv]; exact hP.len, by show c2.wd.length = 4; rw [hwd]; simp, ?_, rfl, ?_, ?_, ?_⟩
   · intro g hg
     show (c2.w g).phys.length = 32
     rw [w_map_range c2 F g hwd]; simp only [hg, if_true]; rw [hF g hg]; exact hP.physlen g hg
-  · intro i hi
+  · intro i hi _
     have hi' : i < vals.length := hi
     show VarOK _ c2 _ i (c2.var i)
     obtain ⟨hdd, hpair⟩ := hr.pair i hi'
@@ -142,7 +141,7 @@ theorem wf_of_pinv (cfg : Cfg) (f : FrameIn) (vals : Vals) (hr : RegOnly vals) (
     have hout := params_out cfg f vals i hi'
     have hgrp : groupOf (srcAt vals i).regType = groupOf (patchRegDst (dstAt vals i)).regType := by
       rw [patch_regType]; exact hpair.grp
-    refine ⟨hout.symm, hpair.srcReg, by show (patchRegDst _).isReg = true; rw [patch_isReg]; exact hpair.dstReg, rfl, hgrp,
+    refine ⟨hout.symm, hpair.srcReg, hpair.srcNotStk, by show (patchRegDst _).isReg = true; rw [patch_isReg]; exact hpair.dstReg, rfl, hgrp,
       by show groupOf (patchRegDst _).regType < 4; rw [patch_regType]; exact hgl, hpair.srcLt,
       by show (patchRegDst _).regId < 32; rw [patch_regId]; exact hdl, ?_, ?_, ?_⟩
     · show physAt c2 (groupOf (srcAt vals i).regType) (srcAt vals i).regId = some i
@@ -159,11 +158,20 @@ theorem wf_of_pinv (cfg : Cfg) (f : FrameIn) (vals : Vals) (hr : RegOnly vals) (
           show (srcAt vals i).regId = (patchRegDst (dstAt vals i)).regId
           rw [this]; exact hdone.1.symm, hd0 i hi' hdone⟩
     · intro _ _; exact hsrc.symm
+  · -- no variable sits in a stack slot
+    intro i hi hnr
+    exfalso
+    have hi' : i < vals.length := hi
+    replace hnr : (c2.var i).cur.isReg = false := hnr
+    rw [hvar, hP.var i hi'] at hnr
+    have := (hr.pair i hi').2.srcReg
+    simp only [mkVar] at hnr
+    rw [this] at hnr; exact absurd hnr (by simp)
   · intro g r j hg hr' hj
     rw [hphys g r hg] at hj
     obtain ⟨a1, a2, a3⟩ := hP.inv g r j hj
     rw [hvar, hP.var j a1]
-    exact ⟨a1, a2, a3⟩
+    exact ⟨a1, a2, a3, (hr.pair j a1).2.srcReg⟩
 
 theorem initWorkData_wf (cfg : Cfg) (f : FrameIn) (vals : Vals) (hr : RegOnly vals) (hd0 : DoneInitOk vals) (ctx : Ctx)
     (h : initWorkData cfg.arch f 255 vals = .ok ctx) :
@@ -218,31 +226,46 @@ theorem shuffle_correct_regs (cfg : Cfg) (f : FrameIn) (vals : Vals) (hr : RegOn
     obtain ⟨hwf, hsdm⟩ := initWorkData_wf cfg f vals hr hd0 ctx hiw
     have hn : ctx.vars.length = vals.length := hwf.len
     simp only [hsdm, ne_eq, not_true_eq_false, if_false, hn] at hok ⊢
-    cases hl : shuffleLoop cfg vals.length (2 * vals.length + 8) { ctx := ctx } {} with
+    cases hl : shuffleLoop cfg vals.length (2 * vals.length + 2) { ctx := ctx } {} with
     | error x => (try rw [hl] at hok); simp at hok
     | ok e =>
       clear hok
       obtain ⟨M', hw', hdone⟩ := loop_ok (paramsOf cfg f vals) hy _ _ _ {} hwf rfl e hl
-      have hss : e.ctx.hasStackSrc = false := hw'.hss
-      simp only [hss, Bool.not_false, if_true]
-      unfold judge setup
-      simp only
-      have hrun : run (vals.map varInfoOf) f cfg.arch (initFrom (vals.map varInfoOf) 0 vals) e.out = some M' :=
-        hw'.runs
-      rw [hrun]
-      simp only [Option.map_some, Option.some.injEq]
-      apply destsFrom_all
-      intro j hj
-      have hv := hw'.var j hj
-      obtain ⟨hdd, hpair⟩ := hr.pair j hj
-      obtain ⟨tok, hget, htv, _, hd, _⟩ := hv.tok
-      obtain ⟨hreg, hdv⟩ := hd (hdone j hj)
-      have hout : (e.ctx.var j).out = patchRegDst (dstAt vals j) := by rw [hv.out]; exact params_out cfg f vals j hj
-      refine ⟨dstAt vals j, hdd, hpair.dstReg, ?_⟩
-      unfold destOk
-      have : M'.get (Loc.reg (groupOf (dstAt vals j).regType) (dstAt vals j).regId) = some tok := by
-        rw [← patch_regType, ← patch_regId, ← hout, ← hv.grp, ← hreg]; exact hget
-      simp [this, htv, hdv]
+      -- every variable still is a register variable
+      have hkind : ∀ j, j < vals.length → (e.ctx.var j).cur.isReg = true := by
+        intro j hj
+        cases hr' : (e.ctx.var j).cur.isReg with
+        | true => rfl
+        | false =>
+          exfalso
+          have hs := hw'.stk j hj hr'
+          have h1 := hs.cur
+          rw [params_src cfg f vals j hj] at h1
+          rw [h1, (hr.pair j hj).2.srcReg] at hr'; exact absurd hr' (by simp)
+      have hnoop := fun sa => phase3_noop (paramsOf cfg f vals) sa e M' hw' hkind (List.range vals.length) (fun j hj => List.mem_range.1 hj)
+      have hnoop' : ∀ sa, List.foldlM (stackLoadVar cfg f sa) (e, 1) (List.range vals.length) = .ok (e, 1) := hnoop
+      have hgoal : judge cfg.arch f vals e.out = some true := by
+        unfold judge setup
+        simp only
+        have hrun : run (vals.map varInfoOf) f cfg.arch (initFrom (vals.map varInfoOf) 0 vals) e.out = some M' :=
+          hw'.runs
+        rw [hrun]
+        simp only [Option.map_some, Option.some.injEq]
+        apply destsFrom_all
+        intro j hj
+        have hv := hw'.var j hj (hkind j hj)
+        obtain ⟨hdd, hpair⟩ := hr.pair j hj
+        obtain ⟨tok, hget, htv, _, hd, _⟩ := hv.tok
+        obtain ⟨hreg, hdv⟩ := hd (hdone j hj (hkind j hj))
+        have hout : (e.ctx.var j).out = patchRegDst (dstAt vals j) := by rw [hv.out]; exact params_out cfg f vals j hj
+        refine ⟨dstAt vals j, hdd, hpair.dstReg, ?_⟩
+        unfold destOk
+        have : M'.get (Loc.reg (groupOf (dstAt vals j).regType) (dstAt vals j).regId) = some tok := by
+          rw [← patch_regType, ← patch_regId, ← hout, ← hv.grp, ← hreg]; exact hget
+        simp [this, htv, hdv]
+      cases hb : e.ctx.hasStackSrc
+      · simp only [hb, Bool.not_false, if_true]; exact hgoal
+      · simp only [hb, Bool.not_true, Bool.false_eq_true, if_false, hnoop', if_true]; exact hgoal
 
 /-! ### executable mirror of `WF` / `RegOnly` for the runtime check of the driver (`wf0` op): every initial context the sweep
     reaches must satisfy the invariant the theorem starts from -/
@@ -251,7 +274,7 @@ def formB (p : Params) (i : Nat) (v : Var) (tok : Tok) : Bool :=
   (v.cur.typeId == v.out.typeId && v.cur.regType == v.out.regType && tok.dv)
 
 def varOkB (p : Params) (c : Ctx) (M : State) (i : Nat) (v : Var) : Bool :=
-  v.out == p.out i && v.cur.isReg && v.out.isReg && v.outInit && groupOf v.cur.regType == groupOf v.out.regType &&
+  v.out == p.out i && v.cur.isReg && !v.cur.isStack && v.out.isReg && v.outInit && groupOf v.cur.regType == groupOf v.out.regType &&
   decide (groupOf v.out.regType < 4) && decide (v.cur.regId < 32) && decide (v.out.regId < 32) &&
   physAt c (groupOf v.cur.regType) v.cur.regId == some i &&
   (match M.get (vloc v) with
@@ -267,12 +290,11 @@ def wfB (p : Params) (e : Emit) (M : State) : Bool :=
   (List.range 4).all (fun g => (List.range 32).all fun r =>
     match physAt e.ctx g r with
     | none => true
-    | some j => decide (j < p.n) && groupOf (e.ctx.var j).cur.regType == g && (e.ctx.var j).cur.regId == r) &&
-  !e.ctx.hasStackSrc
+    | some j => decide (j < p.n) && groupOf (e.ctx.var j).cur.regType == g && (e.ctx.var j).cur.regId == r && (e.ctx.var j).cur.isReg)
 
 def regOnlyB (vals : Vals) : Bool :=
   (List.range vals.length).all (fun i =>
-    (vals.getD i dfltVal).2.isSome && (srcAt vals i).isReg && !(srcAt vals i).isIndirect && decide ((srcAt vals i).regId < 32) &&
+    (vals.getD i dfltVal).2.isSome && (srcAt vals i).isReg && !(srcAt vals i).isStack && !(srcAt vals i).isIndirect && decide ((srcAt vals i).regId < 32) &&
     (dstAt vals i).isReg && groupOf (srcAt vals i).regType == groupOf (dstAt vals i).regType) &&
   (List.range vals.length).all (fun i => (List.range vals.length).all fun j =>
     i == j || !(groupOf (srcAt vals i).regType == groupOf (srcAt vals j).regType && (srcAt vals i).regId == (srcAt vals j).regId))
